@@ -43,6 +43,16 @@ Inductive ustart := UViaSort (k : nat) | UDirect (k : nat).
 
 Definition unmodelled {B} : result B := Err EOther.
 
+(* index-array expressions of match's equality filter and result: st1, sub1, sub2, x[y] *)
+Inductive ix := XSt1 | XSub1 | XSub2 | XAt (x y : ix).
+Fixpoint eval_ix (st1 : option (list nat)) (sub1 sub2 : list nat) (e : ix) : result (list nat) :=
+  match e with
+  | XSt1 => match st1 with Some s => Ok s | None => Err EType end        (* None[...] *)
+  | XSub1 => Ok sub1
+  | XSub2 => Ok sub2
+  | XAt x y => do a <- eval_ix st1 sub1 sub2 x; do b <- eval_ix st1 sub1 sub2 y; ogather a b
+  end.
+
 (* isinstance(el, C1) or isinstance(el, C2): which classes are named *)
 Record strclasses := mkCls { sc_str : bool; sc_bytes : bool }.
 Definition is_string_g (c : strclasses) (k : elclass) : bool :=
@@ -62,7 +72,10 @@ Record mparams := mkM {
   mp_bad_op : cmpop; mp_clamp_minus : nat;     (* sub1[sub1 OP arr1.size] = arr1.size - K *)
   mp_filter_if_not : bool;
   mp_eq_sorted : cmpop; mp_eq_presorted : cmpop;
-  mp_el_first : bool                       (* statement ORDER: `el = arr1[K]` (+ is_string) before the emptiness guard (true) or after it *)
+  mp_el_first : bool;                      (* statement ORDER: `el = arr1[K]` (+ is_string) before the emptiness guard (true) or after it *)
+  (* the index EXPRESSIONS, translated: np.where(arr1[F] == arr2); sub1 = R; per branch; return order *)
+  mp_f_sorted : ix; mp_r_sorted : ix; mp_f_presorted : ix; mp_r_presorted : ix;
+  mp_ret_swap : bool                       (* return (sub2, sub1) instead of (sub1, sub2) *)
 }.
 
 Record mmparams := mkMM { mm_presorted_default : bool; mm_pass : passarg }.
@@ -80,7 +93,9 @@ Record rparams := mkR {
   rp_single_op : cmpop; rp_single_k : nat; rp_single_if_not : bool; rp_single_ret_v : nat; rp_single_ret : nat;
   rp_nkeep0 : nat; rp_val0 : nat; rp_f0 : nat; rp_range_lo : nat;
   rp_ne_op : cmpop; rp_flag_op : cmpop; rp_nkeep_step : nat; rp_slice_lo : nat; rp_slice_plus : nat;
-  rp_values_if_not : bool
+  rp_values_if_not : bool;
+  (* translated: `keep[nkeep] = i` or `= s[i]` in the new-value / larger-flag branch; is `s.sort()` there *)
+  rp_keep_new_via_s : bool; rp_keep_upd_via_s : bool; rp_sort_result : bool
 }.
 
 Section Skel.
@@ -145,22 +160,19 @@ Section Skel.
         let sub1 := if clamp
                     then map (fun j => if cmp_nat (mp_bad_op P) j n then n - mp_clamp_minus P else j) sub1
                     else sub1 in
+        let ret (o1 sub2 : list nat) := if mp_ret_swap P then (sub2, o1) else (o1, sub2) in
         if xorb (mp_filter_if_not P) presorted then
-          match st1 with
-          | None => Err EType                                           (* None[sub1] *)
-          | Some s =>
-            do i1 <- ogather s sub1;
-            do vals <- ogather a1 i1;
-            let sub2 := where_ (cmp_mask (mp_eq_sorted P) vals a2) in
-            do t <- ogather sub1 sub2;
-            do o1 <- ogather s t;
-            Ok (o1, sub2)
-          end
+          do i1 <- eval_ix st1 sub1 [] (mp_f_sorted P);                  (* arr1[F] *)
+          do vals <- ogather a1 i1;
+          let sub2 := where_ (cmp_mask (mp_eq_sorted P) vals a2) in
+          do o1 <- eval_ix st1 sub1 sub2 (mp_r_sorted P);                (* sub1 = R *)
+          Ok (ret o1 sub2)
         else
-          do vals <- ogather a1 sub1;
+          do i1 <- eval_ix st1 sub1 [] (mp_f_presorted P);
+          do vals <- ogather a1 i1;
           let sub2 := where_ (cmp_mask (mp_eq_presorted P) vals a2) in
-          do o1 <- ogather sub1 sub2;
-          Ok (o1, sub2) in
+          do o1 <- eval_ix st1 sub1 sub2 (mp_r_presorted P);
+          Ok (ret o1 sub2) in
     if mp_el_first P then el (guard rest) else guard (el rest).
 
   (* match_multi: `return match(arr1input, arr2input, presorted=<const or the caller's>)` *)
@@ -209,14 +221,14 @@ Section Skel.
       else Ok (UIdx keep).
 
   (* ---------------------------------------------------------------- rem_dup *)
-  Fixpoint rd_loop_g (ne fop : cmpop) (val : A) (f : Z) (cur : nat) (acc : list nat)
+  Fixpoint rd_loop_g (kn ku : nat -> nat) (ne fop : cmpop) (val : A) (f : Z) (cur : nat) (acc : list nat)
            (rest : list (nat * (A * Z))) : list nat :=
     match rest with
     | [] => rev (cur :: acc)
     | (i, (x, fx)) :: t =>
-        if cmp_A ne x val then rd_loop_g ne fop x fx i (cur :: acc) t   (* if sarr[i] OP val: *)
-        else if cmp_Z fop fx f then rd_loop_g ne fop val fx i acc t     (* elif sflag[i] OP f: *)
-        else rd_loop_g ne fop val f cur acc t
+        if cmp_A ne x val then rd_loop_g kn ku ne fop x fx (kn i) (cur :: acc) t   (* if sarr[i] OP val: ... keep[nkeep] = KN(i) *)
+        else if cmp_Z fop fx f then rd_loop_g kn ku ne fop val fx (ku i) acc t     (* elif sflag[i] OP f: ... keep[nkeep] = KU(i) *)
+        else rd_loop_g kn ku ne fop val f cur acc t
     end.
 
   Definition r_pinned (P : rparams) : bool :=
@@ -238,8 +250,10 @@ Section Skel.
         match nth_error sarr (rp_val0 P), nth_error sflag (rp_f0 P), ents with
         | Some v0, Some f0, _ :: _ =>
             (* keep is zero-initialised: keep[0] = 0 until overwritten *)
-            do kept <- ogather s (rd_loop_g (rp_ne_op P) (rp_flag_op P) v0 f0 0 [] (skipn (rp_range_lo P) ents));
-            let keep := sort_nat kept in
+            let via (b : bool) (i : nat) := if b then nth i s 0 else i in
+            do kept <- ogather s (rd_loop_g (via (rp_keep_new_via_s P)) (via (rp_keep_upd_via_s P)) (rp_ne_op P) (rp_flag_op P)
+                                            v0 f0 0 [] (skipn (rp_range_lo P) ents));          (* s = s[keep] *)
+            let keep := if rp_sort_result P then sort_nat kept else kept in                    (* s.sort() *)
             if xorb (rp_values_if_not P) values then do v <- ogather a keep; Ok (false, keep, Some v)
             else Ok (false, keep, None)
         | _, _, _ => Err EIndex
@@ -253,9 +267,10 @@ Arguments unique_call_g {A}. Arguments rd_loop_g {A}. Arguments rem_dup_call_g {
 (* the values the hand model Model.v / Forms.v is written for (the repaired tree); Tie.v proves
    that Gen.v's values give the same functions, RefTie below that these do *)
 Definition ref_match : mparams :=
-  mkM false 0 (mkCls true true) true false CEq 0 COr CEq 0 EValue CNe EValue true SLeft COr CGt CEq 1 true CEq CEq true.
+  mkM false 0 (mkCls true true) true false CEq 0 COr CEq 0 EValue CNe EValue true SLeft COr CGt CEq 1 true CEq CEq true
+      (XAt XSt1 XSub1) (XAt XSt1 (XAt XSub1 XSub2)) XSub1 (XAt XSub1 XSub2) false.
 Definition ref_match_multi : mmparams := mkMM false (PassConst false).
 Definition ref_unique : uparams := mkU false (UViaSort 0) 0 (UViaSort 0) 1 0 CLt CNe 1 1 0 1 false.
 (* the code as found (commit 29e445c): val = arr[0], keep[0] left at its zero initialisation *)
 Definition asfound_unique : uparams := mkU false (UDirect 0) 0 (UDirect 0) 1 0 CLt CNe 1 1 0 1 false.
-Definition ref_rem_dup : rparams := mkR false CEq 1 false 0 0 0 0 0 1 CNe CGt 1 0 1 false.
+Definition ref_rem_dup : rparams := mkR false CEq 1 false 0 0 0 0 0 1 CNe CGt 1 0 1 false false false true.
